@@ -96,6 +96,7 @@ for Crossbeam<'a, ItemType, BUFFER_SIZE, MAX_STREAMS> {
 
     #[inline(always)]
     fn send(&self, item: ItemType) -> keen_retry::RetryConsumerResult<(), ItemType, ()> {
+        #[cfg(feature = "verif")] crate::verif::point(crate::verif::UNI_XB_SEND_ENTER);
         match self.tx.len() {
             len_before if len_before <= 2 => {
                 #[cfg(feature = "verif")] crate::verif::note(crate::verif::UNI_XB_BETWEEN_LEN_AND_SEND, len_before as u64);
